@@ -228,5 +228,7 @@ def run(ctx):
         from . import layers as LY
         from .c01 import r01_7
         r01_7(ctx, LY.discover(ctx.facts), rid="R11.5")
+        from .c02 import r02_8
+        r02_8(ctx, LY.discover(ctx.facts), rid="R11.6")  # a router after insert + remove answers like a rebuilt one, whatever bucket is visited first
     except MissingAnchor as e:
         ctx.run_rule("R11.5", "duplicate-free union of buckets", lambda r: r.missing(str(e)), floor=1)
